@@ -1349,7 +1349,7 @@ class Scene(Geometry3D):
         copied = Scene(
             geometry=geometry,
             graph=self.graph.copy(),
-            metadata=self.metadata.copy(),
+            metadata=deepcopy(self.metadata),
             camera=camera,
         )
         return copied
